@@ -128,6 +128,10 @@ func (p *Program) checkImmutable() []*Obligation {
 	}
 	var obls []*Obligation
 	for i, f := range fields {
+		if !p.roots[f.tc.PkgPath] {
+			p.immAssumed = append(p.immAssumed, fmt.Sprintf("immutable %s.%s.%s is assumed in this run (its package is only a dependency here; it is checked by the runs that verify that package)", pkgBase(f.tc.PkgPath), f.tc.Name, f.fname))
+			continue
+		}
 		o := &Obligation{Name: fmt.Sprintf("%s.%s#immutable[%s]", pkgBase(f.tc.PkgPath), f.tc.Name, f.fname), Kind: "immutable", Props: f.tc.Props, Fn: f.tc.Name, Backend: "syntactic-scan", Status: "proved"}
 		if len(viol[i]) > 0 {
 			o.Status = "failed"
